@@ -74,6 +74,10 @@ type Cfg struct {
 	Multisig   bool
 	Discards   bool // include must-discard candidates
 	Known      bool // include the shapes of known findings (oversized modify-asset discard, box)
+	// Mode shifts the distribution: "" general, "votes" vote/deposit/balance-boundary heavy,
+	// "assets" asset heavy with hostile amounts / senders / receivers.
+	Mode            string
+	DedicatedIncome bool // candidates' income addresses are accounts that never vote or transact
 }
 
 func DefaultCfg() Cfg {
@@ -86,7 +90,17 @@ func NewGen(w *fx.World, r *run.Rng, cfg Cfg) *Gen {
 	return g
 }
 
-func (g *Gen) user() int          { return g.R.Intn(len(g.W.Users)) }
+func (g *Gen) user() int { return g.R.Intn(len(g.W.Users)) }
+
+// income picks the income address a registering candidate names.
+func (g *Gen) income(u int) common.Address {
+	if g.Cfg.DedicatedIncome {
+		a := fx.NewKey("candidate-income", u).Addr
+		g.U.Addr(a)
+		return a
+	}
+	return g.key(g.user()).Addr
+}
 func (g *Gen) key(i int) fx.Key   { return g.W.Users[i] }
 func (g *Gen) exp(t uint32) uint64 { return uint64(t) + uint64(g.R.Range(60, 1700)) }
 
@@ -225,6 +239,46 @@ func (g *Gen) one(t uint32, height uint32) ([]Cand, bool) {
 		}
 	}
 	pick := g.R.Intn(100)
+	switch g.Cfg.Mode {
+	case "votes":
+		// remap: 0-34 transfer, 35-64 vote, 65-79 register family, 80-89 contract call with value, 90-94 gas payer, 95-99 rest
+		switch {
+		case pick < 35:
+			to := g.key(g.user()).Addr
+			base := int64(g.R.Range(0, 6)) * 200
+			amt := fx.LEMO(base)
+			switch g.R.Intn(4) {
+			case 0:
+				amt.Add(amt, fx.LEMO(int64(g.R.Range(1, 199))))
+			case 1:
+				amt.Sub(amt, big.NewInt(int64(g.R.Intn(1000))))
+				if amt.Sign() < 0 {
+					amt.SetInt64(0)
+				}
+			case 2:
+				amt.Add(amt, big.NewInt(int64(g.R.Intn(100000))))
+			}
+			return []Cand{g.cand(g.B.Transfer(k, to, amt, exp), "transfer", "ok")}, true
+		case pick < 65:
+			pick = 50
+		case pick < 80:
+			pick = 60
+		case pick < 90:
+			pick = 30
+		case pick < 95:
+			pick = 94
+		default:
+			pick = g.R.Intn(100)
+		}
+	case "assets":
+		if pick < 75 {
+			pick = 70
+		} else if pick < 90 {
+			pick = 5
+		} else {
+			pick = g.R.Intn(100)
+		}
+	}
 	switch {
 	case pick < 14: // plain transfer
 		to := g.key(g.user()).Addr
@@ -306,14 +360,14 @@ func (g *Gen) one(t uint32, height uint32) ([]Cand, bool) {
 		if !g.Cands[u] {
 			dep := new(big.Int).Add(params.MinCandidateDeposit, fx.LEMO(int64(g.R.Intn(500))))
 			g.Cands[u] = true
-			return []Cand{g.cand(g.B.Register(k, fx.Profile(k, g.key(g.user()).Addr, true, "hello"), dep, exp), "register", "any")}, true
+			return []Cand{g.cand(g.B.Register(k, fx.Profile(k, g.income(u), true, "hello"), dep, exp), "register", "any")}, true
 		}
 		if g.R.Chance(1, 4) {
 			g.Unreg[u] = true
 			delete(g.Cands, u)
 			return []Cand{g.cand(g.B.Register(k, fx.Profile(k, k.Addr, false, ""), big.NewInt(0), exp), "unregister", "any")}, true
 		}
-		return []Cand{g.cand(g.B.Register(k, fx.Profile(k, g.key(g.user()).Addr, true, fmt.Sprintf("intro %d", g.R.Intn(99))), fx.LEMO(int64(g.R.Range(0, 300))), exp), "candidate-update", "any")}, true
+		return []Cand{g.cand(g.B.Register(k, fx.Profile(k, g.income(u), true, fmt.Sprintf("intro %d", g.R.Intn(99))), fx.LEMO(int64(g.R.Range(0, 300))), exp), "candidate-update", "any")}, true
 	case pick < 80 && g.Cfg.Assets:
 		return g.assetTx(t, height, u)
 	case pick < 85 && g.Cfg.Multisig:
@@ -394,6 +448,11 @@ func (g *Gen) assetTx(t uint32, height uint32, u int) ([]Cand, bool) {
 	}
 	a := usable[g.R.Intn(len(usable))]
 	ik := g.key(a.Issuer)
+	if g.Cfg.Mode == "assets" && g.R.Chance(1, 2) {
+		if c, ok := g.hostileAsset(t, height, u, a); ok {
+			return c, true
+		}
+	}
 	switch g.R.Intn(6) {
 	case 0, 1: // issue
 		to := g.user()
@@ -454,6 +513,96 @@ func (g *Gen) assetTx(t uint32, height uint32, u int) ([]Cand, bool) {
 		amt := big.NewInt(int64(g.R.Range(0, 2000)))
 		tx := g.B.TransferAsset(owner, to, id, amt, exp)
 		return []Cand{g.cand(tx, "transfer-asset", "any")}, true
+	}
+}
+
+var hostileAmounts = []string{`"0"`, `"1"`, `"-1"`, `"-60"`, `"115792089237316195423570985008687907853269984665640564039457584007913129639936"`, `"12x"`, `""`, `null`, `7`, `"-0"`}
+
+// hostileAsset draws adversarial asset transactions: raw amounts (zero, negative, 2^256,
+// garbage, missing), senders that are issuer / holder / stranger, receivers self / other /
+// accepting contract / reverting contract / burn address.
+func (g *Gen) hostileAsset(t uint32, height uint32, u int, a *AssetInfo) ([]Cand, bool) {
+	exp := g.exp(t)
+	ik := g.key(a.Issuer)
+	amtRaw := hostileAmounts[g.R.Intn(len(hostileAmounts))]
+	stranger := g.key(u)
+	switch g.R.Intn(5) {
+	case 0: // issue by issuer or stranger with a raw amount
+		from := ik
+		kind := "issue-asset-raw"
+		if g.R.Chance(1, 3) {
+			from = stranger
+			kind = "issue-asset-by-stranger"
+		}
+		tx := g.B.IssueAssetRaw(from, g.key(g.user()).Addr, a.Code, amtRaw, "m", exp)
+		id := tx.Hash()
+		if a.Category == types.TokenAsset {
+			id = a.Code
+		}
+		g.U.AssetID(id)
+		to := g.user()
+		h := height
+		g.Pending = append(g.Pending, func(in func(common.Hash) bool, _ uint32) {
+			if in(tx.Hash()) {
+				if _, ok := a.IDOwner[id]; !ok {
+					a.IDs = append(a.IDs, id)
+					a.IssuedAt[id] = h
+					a.IDOwner[id] = to
+				}
+			}
+		})
+		return []Cand{g.cand(tx, kind, "any")}, true
+	case 1: // replenish raw / by stranger
+		if len(a.IDs) == 0 {
+			return nil, false
+		}
+		id := a.IDs[g.R.Intn(len(a.IDs))]
+		from := ik
+		kind := "replenish-asset-raw"
+		if g.R.Chance(1, 3) {
+			from = stranger
+			kind = "replenish-asset-by-stranger"
+		}
+		return []Cand{g.cand(g.B.ReplenishAssetRaw(from, g.key(a.IDOwner[id]).Addr, a.Code, id, amtRaw, exp), kind, "any")}, true
+	default: // transfer with raw amount, odd sender, odd receiver
+		if len(a.IDs) == 0 {
+			return nil, false
+		}
+		id := a.IDs[g.R.Intn(len(a.IDs))]
+		if a.IssuedAt[id] > g.StableH {
+			return nil, false
+		}
+		from := g.key(a.IDOwner[id])
+		kind := "transfer-asset-raw"
+		switch g.R.Intn(4) {
+		case 0:
+			from = stranger
+			kind = "transfer-asset-by-stranger"
+		case 1:
+			from = ik
+			kind = "transfer-asset-by-issuer"
+		}
+		var to common.Address
+		switch g.R.Intn(6) {
+		case 0:
+			to = from.Addr
+			kind += "-to-self"
+		case 1:
+			to = common.Address{}
+			kind += "-to-burn"
+		case 2:
+			to = g.ByKind("storeif")
+			kind += "-to-contract"
+		case 3:
+			to = g.ByKind("reverter")
+			kind += "-to-reverting-contract"
+		default:
+			to = g.key(g.user()).Addr
+		}
+		if g.R.Chance(1, 2) {
+			amtRaw = fmt.Sprintf(`"%d"`, g.R.Range(0, 3000))
+		}
+		return []Cand{g.cand(g.B.TransferAssetRaw(from, to, id, amtRaw, nil, 2000000, exp), kind, "any")}, true
 	}
 }
 
